@@ -20,9 +20,9 @@ theorem initmemories_data_mode_independent (m1 m2 : Mode) (d : ModDesc) (s : St)
 
 /-- what `memory.init` reads through `d<k>` is the same in every mode: the k-th array (arrays mode) and the bytes at the pointer
     InitMemories stores in `d<k>` (external modes: `ds + Σ` of the lengths of ALL earlier segments) are both segment k's bytes -/
-theorem passive_segment_bytes_mode_independent (m1 m2 : Mode) (d : ModDesc) (pre : List DataSeg) (seg : DataSeg) (post : List DataSeg)
+theorem segment_bytes_mode_independent (m1 m2 : Mode) (d : ModDesc) (pre : List DataSeg) (seg : DataSeg) (post : List DataSeg)
     (hd : d.datas = pre ++ seg :: post) :
     ptrTarget (sourcesOf m1 d) (bytesLen pre) seg.bytes.length = ((sourcesOf m2 d).arrays[pre.length]?).join := by
-  rw [(C06Init.passive_pointer_is_segment m1 d pre seg post hd).1, (C06Init.passive_pointer_is_segment m2 d pre seg post hd).2.1]
+  rw [(C06Init.segment_pointer_is_segment m1 d pre seg post hd).1, (C06Init.segment_pointer_is_segment m2 d pre seg post hd).2.1]
 
 end W2c2Verif.Props.C09Data
